@@ -36,9 +36,11 @@ C09_ContinueOrHandBack ==
                                  \/ (ph[f] = "Done" /\ Restored(f))
 
 \* ---- C15: stored characterisation is reused ----
+\* what was measured and stored is not measured again: no PWM sweep when a PWM map was stored (or
+\* configured), no RPM-curve measurement when RPM curve data was stored
 C15_Reuse ==
-  \A f \in cf.fans : had[f] /\ ph[f] \in {"Delay", "Reg", "Rest1", "Rest2", "Rest3", "Done"}
-                    => cnt[f].sweeps = 0 /\ cnt[f].meas = 0
+  \A f \in cf.fans : /\ (had[f].map => cnt[f].sweeps = 0)
+                      /\ (had[f].data => cnt[f].meas = 0)
 C15_ConfigMapNoSweep == \A f \in cf.fans : cf.cfgMap[f] => cnt[f].sweeps = 0
 C15_AtMostOnce == \A f \in cf.fans : cnt[f].sweeps <= 1 /\ cnt[f].meas <= 1
 \* the README's promise; the code does not implement it (known finding D10)
@@ -58,5 +60,5 @@ NV_NoOverlap == Cardinality({f \in cf.fans : ana[f]}) <= 1
 NV_NoRestore == \A f \in cf.fans : ph[f] # "Rest3"
 NV_NoModeBack == \A f \in cf.fans : ~(reg[f] /\ ph[f] = "Done" /\ pwm[f] # Full)
 NV_NoSecondStart == starts < 2
-NV_NoReuse == ~(\E f \in cf.fans : had[f] /\ ph[f] = "Reg")
+NV_NoReuse == ~(\E f \in cf.fans : had[f].map /\ had[f].data /\ ph[f] = "Reg")
 ==============================================================================
